@@ -32,6 +32,17 @@ CLAIMED['C08'] = dict(
          'frappy inside the update lock). Two in-flight races of broadcast_event are known findings (known_findings.json).',
     design='6/C08')
 
+CLAIMED['C05'] = dict(
+    level='exploration',
+    text='Seeded search over driver-side histories (reads ok/raising/invalid, writes, assignments equal/different/'
+         'invalid, explicit and repeated error announcements, gaps below/above the suppression window) from 1..3 '
+         'tasks against generated parameters of all datatypes and all omit_unchanged_within/update_unchanged '
+         'settings. Judged (i) against a register model fed from the operations and (ii) by replaying the activated '
+         'connection\'s byte stream against the ground-truth cache history (order, no phantom state, final = cache).',
+    note='Trusted: simulation kernel, fake driver, register model (value/error effect per operation), cache history '
+         'from parameter callbacks. With several tasks the final entry must match an operation that may have been last.',
+    design='6/C05')
+
 NOT_APPLICABLE = {
     'C01': 'pure function of (datatype, candidate, previous) - no schedule, clock, I/O or fault dimension for a simulator to decide',
     'C02': 'pure round-trip law over (datatype, value) - no schedule, clock, I/O or fault dimension',
